@@ -21,15 +21,20 @@ EXTENDS Integers, Sequences, FiniteSets
 \* st: sst "open" | "fin" | "reset"; scode; rst "open" | "stopped"; rcode;
 \*     sent (bytes written and accepted); rcvd (bytes the reader has seen); eof
 InitSt == [sst |-> "open", scode |-> <<0, 0>>, rst |-> "open", rcode |-> <<0, 0>>,
-           sent |-> 0, rcvd |-> 0, eof |-> FALSE]
+           sent |-> 0, rcvd |-> 0, eof |-> FALSE, lost |-> FALSE]
 
 NoCode == <<0, 0>>
 R(k, code, n) == [k |-> k, code |-> code, n |-> n]
 ANY == R("any", NoCode, 0)
 
 \* op: [side, op, code, n]  (n = bytes to write)
+\* (lost: the connection went away under the stream - the receiving side closed it.  A sender whose
+\* stream was still open then learns of it from every call: nothing reports success any more.)
 Allowed(st, o) ==
-  CASE o.op = "write" ->
+  CASE o.op = "lose" -> {R("ok", NoCode, 0)}
+    [] st.lost /\ o.side = "S" ->
+         IF st.sst = "open" /\ o.op \in {"write", "finish", "stopped"} THEN {R("NotConnected", NoCode, 0)} ELSE {ANY}
+    [] o.op = "write" ->
          IF st.sst = "open" /\ st.rst = "open" THEN {R("ok", NoCode, o.n)}
          ELSE IF st.sst = "open" /\ st.rst = "stopped" THEN {R("Stopped", st.rcode, 0)}
          ELSE {ANY}
@@ -59,6 +64,7 @@ Upd(st, o, r) ==
     [] o.op = "reset" /\ r.k = "ok" /\ st.sst = "open" -> [st EXCEPT !.sst = "reset", !.scode = o.code]
     [] o.op = "read" -> [st EXCEPT !.rcvd = @ + r.n, !.eof = (r.k = "fin")]
     [] o.op = "stop" /\ st.rst = "open" -> [st EXCEPT !.rst = "stopped", !.rcode = o.code]
+    [] o.op = "lose" -> [st EXCEPT !.lost = TRUE]
     [] OTHER -> st
 
 \* which operations the script may still issue (handles consumed by stop; one read-to-end
